@@ -139,8 +139,10 @@ pub fn device_for(file: &File) -> Option<Arc<dyn SimDevice>> {
     controller().and_then(|c| c.device_for(file))
 }
 
-pub(crate) fn io_error(error: io::Error) -> crate::error::FeoxError {
-    crate::error::FeoxError::IoError(error)
+/// Simulated process restart for process-wide registries.
+pub fn process_restart() {
+    #[cfg(target_os = "linux")]
+    crate::storage::io::verif_process_restart();
 }
 
 pub mod sync {
